@@ -2,8 +2,6 @@ package streamwriter
 
 import (
 	"bytes"
-	"errors"
-	"io"
 )
 
 type size interface {
@@ -50,9 +48,8 @@ func (w *writer[SizeT, Req, Resp]) Close() error {
 	data := w.buf.Bytes()
 	if len(data) > 0 {
 		err := w.stream.Send(w.req(w.buf.Bytes()))
-		// io.EOF means the other side has already answered:
-		// its verdict is what CloseAndRecv returns.
-		if err != nil && !errors.Is(err, io.EOF) {
+		if err != nil {
+			// Also for io.EOF: the tail was not sent, so the stream must not be completed.
 			return err
 		}
 	}
